@@ -35,6 +35,13 @@ def _array_of(ctx, path):
     return vals
 
 
+# "every table description the compressor writes parses back to the table it used" includes the table it does *not*
+# write: a repeat mode may only refer to a table the decoder has (per-frame reset, roll-back on the raw fallback) — the
+# encoder-state rules of C02, reported as C12.encoder-state
+INCLUDES = [
+    ("c02", "C12.encoder-state", {"keys": ("compress::state.fse_tables", "compress_fastest::", "compress-state::")}, 3),
+]
+
 def run(ctx):
     crate = ctx.crate()
     R = "C12.table.predefined"
